@@ -732,3 +732,11 @@ package checkers
 //@   decreases typeDepth(typ)
 //@ func (*sqlQueryChecker).typeHasExecMethodRec
 //@   terminates_by every defined type is entered at most once (the seen set), and between two defined types the recursion descends through finitely nested type literals
+
+// underef (C09): the quoted simplification keeps parentheses around an operand that is itself a unary expression
+// (`*p`, `<-ch`, `&x`): without them the selector or index would bind to the operand's operand
+//@ func (*underefChecker).underef
+//@   prop C09
+//@   nosafety node shapes are the subject of the C01 sweep
+//@   requires x != nil && typeIs(x.X, "*ast.StarExpr")
+//@   ensures @unary-operands-keep-their-parentheses (typeIs(cast(x.X, "*ast.StarExpr").X, "*ast.StarExpr") || typeIs(cast(x.X, "*ast.StarExpr").X, "*ast.UnaryExpr")) ==> typeIs(result, "*ast.ParenExpr")
